@@ -99,6 +99,7 @@ def check(ctx):
             try:
                 E = run_solver(solver, M.copy(), target=target)
             except Exception:  # noqa: BLE001
+                ctx.count("gmat-solver-raised")
                 continue  # C15 reports solver failures
             if E is None:
                 continue
@@ -107,3 +108,4 @@ def check(ctx):
             ctx.count("gmat")
             if d > 1e-7:
                 ctx.fail("oracle", f"C09/oracle/gmat/{solver}", f"{solver} returned non-orthonormal columns on {kind} ({d:.2e})", replay={"matrix": M.tolist(), "solver": solver}, has_input=True)
+    ctx.require("the eigen-solvers returned vectors for most generated matrices", ctx.distribution.get("gmat", 0) > 3 * ctx.distribution.get("gmat-solver-raised", 0))
